@@ -545,10 +545,18 @@ def main(run_fn, prop, level="model_checking"):
         rc = ctx.finish()
     except InternalError as e:
         log("INTERNAL ERROR in check %s: %s" % (prop, e))
+        if ctx.violations:
+            # the machinery tripped after the code under test had already been caught (e.g. a crashing mutant left no trace to validate):
+            # the violations found so far are the verdict
+            ctx.notes.append("the check stopped early with an internal error after reporting violations: %s" % str(e)[:300])
+            sys.exit(ctx.finish())
         sys.exit(2)
     except Exception:
         import traceback
         log("INTERNAL ERROR (unexpected exception) in check %s:\n%s" % (prop, traceback.format_exc()))
+        if ctx.violations:
+            ctx.notes.append("the check stopped early with an unexpected exception after reporting violations")
+            sys.exit(ctx.finish())
         sys.exit(2)
     sys.exit(rc)
 
